@@ -34,6 +34,7 @@ macro_rules! dispatch {
             "C03" => driver::$f(scenarios::c03::C03, $($arg),*),
             "C09" => driver::$f(scenarios::c09::C09, $($arg),*),
             "C07" => driver::$f(scenarios::c07::C07, $($arg),*),
+            "C08" => driver::$f(scenarios::c08::C08, $($arg),*),
             other => {
                 eprintln!("HARNESS-ERROR unknown property {other}");
                 2
@@ -46,6 +47,11 @@ fn main() {
     let args: Vec<String> = std::env::args().collect();
     if args.len() < 3 {
         usage();
+    }
+    // C08: QueryRouter::init_blob creates a multi-thread tokio runtime; one idle
+    // worker is enough (set before any thread exists, so no setenv/getenv race)
+    if std::env::var_os("TOKIO_WORKER_THREADS").is_none() {
+        std::env::set_var("TOKIO_WORKER_THREADS", "1");
     }
     sched::install_repo_hook();
     let code = match args[1].as_str() {
